@@ -29,8 +29,10 @@ ScenarioWhys(r) ==
       p \in { q \in P : ~Acquired(q) /\ q.kill_ts < 0 /\ ~LockError(q) } }
   \cup { "C14:an invocation that did not get the lock started an executable or changed checkpoint, results or logs" :
       p \in { q \in P : ~Acquired(q) /\ q.kill_ts < 0 /\ (q.helpers > 0 \/ q.changed) } }
+  \* (not for a lock address that no invocation can bind at all, e.g. a port number above 65535: there every invocation
+  \* fails with the lock error and the property holds with nobody ever past acquisition)
   \cup { "C14:lock acquisition failed although no other invocation was alive" :
-      p \in { q \in P : ~Acquired(q) /\ q.kill_ts < 0 /\ LockError(q)
+      p \in { q \in P : ~("unusable" \in DOMAIN r /\ r.unusable) /\ ~Acquired(q) /\ q.kill_ts < 0 /\ LockError(q)
                         /\ ~\E h \in P : h.p # q.p /\ Acquired(h) /\ Overlap(h.spawn_ts, h.exit_ts, q.spawn_ts, q.exit_ts) } }
 
 \* waited for the lock: reached its acquisition attempt while another invocation definitely held the lock for at least
